@@ -191,3 +191,116 @@ class SymInter:
         from .symexec import fresh_name
 
         return V.sstr(fresh_name("inter_elem"))
+
+
+# --------------------------------------------------------------------------- SymMapped as a list value
+def _fresh_consts(formula, start):
+    """Uninterpreted constants of `formula` created (by fresh_name) at or after counter value `start`."""
+    out = {}
+    seen = set()
+    stack = [formula]
+    while stack:
+        t = stack.pop()
+        if t.get_id() in seen:
+            continue
+        seen.add(t.get_id())
+        if z3.is_app(t):
+            if t.num_args() == 0 and t.decl().kind() == z3.Z3_OP_UNINTERPRETED:
+                nm = t.decl().name()
+                if "!" in nm:
+                    tail = nm.rsplit("!", 1)[1].split(".")[0].split("?")[0]
+                    if tail.isdigit() and int(tail) >= start:
+                        out[nm] = t
+            stack.extend(t.children())
+        elif z3.is_quantifier(t):
+            stack.append(t.body())
+    return list(out.values())
+
+
+def _sm_member(self, ex, u, st):
+    """Formula: u is an element of this filtered/mapped list (identity maps only).
+    Values created while evaluating the filter for u (results of callees under contract)
+    are existentially closed: they depend on u."""
+    from . import symexec as _se
+
+    start = next(_se._counter)
+    root = self.root()
+    base = st.fork()
+    n0 = len(base.pc)
+    keeps = []
+    for s1, kind, val in self.elementwise(ex, u, base):
+        if kind == "keep":
+            if not (isinstance(val, SStr) and val.t.eq(V.z3str(u))) and val is not u:
+                raise Unsupported("membership in a mapped (non-identity) comprehension")
+            keeps.append(z3.And(*s1.pc[n0:]) if len(s1.pc) > n0 else z3.BoolVal(True))
+        elif kind == "raise":
+            if not getattr(self, "no_raise", False):
+                raise Unsupported("comprehension element may raise")
+    inroot = z3.Contains(root.t, z3.Unit(V.z3str(u)))
+    body = z3.Or(*keeps) if keeps else z3.BoolVal(False)
+    fresh = _fresh_consts(body, start)
+    if fresh:
+        body = z3.Exists(fresh, body)
+    return z3.And(inroot, body)
+
+
+def _sm_truthy_setup(self, ex, st):
+    from .symexec import fresh_name
+
+    if getattr(self, "_ne", None) is None:
+        ne = z3.Bool(fresh_name("nonempty"))
+        w = z3.String(fresh_name("witness"))
+        u = z3.String(fresh_name("u"))
+        st.assume(z3.Implies(ne, _sm_member(self, ex, SStr(w), st)))
+        st.assume(z3.Implies(z3.Not(ne), z3.ForAll([u], z3.Not(_sm_member(self, ex, SStr(u), st)))))
+        self._ne = ne
+    return self._ne
+
+
+def _sm_method(self, ex, name, args, kwargs, st, node):
+    if name == "sort":
+        key = kwargs.get("key")
+        self._sorted = (key, bool(kwargs.get("reverse", False)))
+        return [Val(None, st)]
+    raise Unsupported(f"list.{name} on comprehension result")
+
+
+def _sm_getitem(self, ex, idx, st, node):
+    """After .sort(key=K, reverse=True): element 0 is a maximal element w.r.t. K (A-sort:
+    list.sort orders by the key; needs the key order to be a total preorder - C16)."""
+    from .symexec import fresh_name
+
+    srt = getattr(self, "_sorted", None)
+    if srt is None or idx not in (0, -1):
+        raise Unsupported("indexing an unsorted comprehension result")
+    key = srt[0]
+    greatest = srt[1] == (idx == 0)  # reverse-sorted: [0] is a greatest element, [-1] a least one
+    m = z3.String(fresh_name("max_elem" if greatest else "min_elem"))
+    u = z3.String(fresh_name("u"))
+    st.assume(_sm_member(self, ex, SStr(m), st))
+    le = self.key_le(ex, key, SStr(u), SStr(m), st, node) if greatest else self.key_le(ex, key, SStr(m), SStr(u), st, node)
+    st.assume(z3.ForAll([u], z3.Implies(_sm_member(self, ex, SStr(u), st), le)))
+    ne = _sm_truthy_setup(self, ex, st)
+    t, f = ex.split(ne, st)
+    out = []
+    if t is not None:
+        out.append(Val(SStr(m), t))
+    if f is not None:
+        out.append(ex.raise_(IndexError, f))
+    return out
+
+
+def _sm_key_le(self, ex, key, a, b, st, node):
+    ra = ex.call(key, [a], {}, st.fork(), node)
+    rb = ex.call(key, [b], {}, st.fork(), node)
+    if len(ra) != 1 or len(rb) != 1:
+        raise Unsupported("sort key forks")
+    return V.to_z3_bool(V.v_cmp("<=", ra[0].v, rb[0].v))
+
+
+SymMapped.member = _sm_member
+SymMapped.__pyvc_method__ = _sm_method
+SymMapped.__pyvc_getitem__ = _sm_getitem
+SymMapped.key_le = _sm_key_le
+SymMapped.__pyvc_getslice__ = lambda self, ex, sl, st, node: [Val(self, st)]
+SymMapped.__pyvc_truthy_st__ = lambda self, ex, st: _sm_truthy_setup(self, ex, st)
